@@ -27,7 +27,8 @@ Definition getutf8 (s : bytes) : option (N * nat) :=
     let a2 := rd0 s 2 in
     if negb (is_cont a2) then None else
     let v := N.lor (N.shiftl (N.lor (N.shiftl (N.land c 15) 6) (N.land a1 63)) 6) (N.land a2 63) in
-    if (v <? 2048) || ((55295 <? v) && (v <? 57344)) || (65533 <? v) then None
+    (* the noncharacter range %xFDD0-FDEF is refused since /repo commit d2cc93f *)
+    if (v <? 2048) || ((55295 <? v) && (v <? 57344)) || ((64976 <=? v) && (v <=? 65007)) || (65533 <? v) then None
     else Some (v, 3%nat)
   else if N.land c 248 =? 240 then
     let a1 := rd0 s 1 in
@@ -39,7 +40,8 @@ Definition getutf8 (s : bytes) : option (N * nat) :=
     let v := N.lor (N.shiftl (N.lor (N.shiftl (N.lor (N.shiftl (N.land c 7) 6) (N.land a1 63)) 6)
                                     (N.land a2 63)) 6) (N.land a3 63) in
     (* (c < 0x10000) || (c > 0x10ffff)   (the lower bound was 0x1000 before /repo commit 5a70337: overlong forms) *)
-    if (v <? 65536) || (1114111 <? v) then None
+    (* ... || ((c & 0xfffe) == 0xfffe): noncharacters %xnFFFE-nFFFF, since /repo commit d2cc93f *)
+    if (v <? 65536) || (1114111 <? v) || (N.land v 65534 =? 65534) then None
     else Some (v, 4%nat)
   else None.
 
@@ -54,8 +56,8 @@ Definition pututf8 (v : N) : option bytes :=
     if (N.land v 63488 =? 55296) || ((64976 <=? v) && (v <=? 65007)) then None
     else Some [N.lor 224 (N.shiftr v 12); N.lor 128 (N.land (N.shiftr v 6) 63); N.lor 128 (N.land v 63)]
   else if v <? 1114110 then
-    (* libyang: (value & 0xffe) == 0xffe *)
-    if N.land v 4094 =? 4094 then None
+    (* (value & 0xfffe) == 0xfffe   (the mask was 0xffe before /repo commit c0f8af1) *)
+    if N.land v 65534 =? 65534 then None
     else Some [N.lor 240 (N.shiftr v 18); N.lor 128 (N.land (N.shiftr v 12) 63);
                N.lor 128 (N.land (N.shiftr v 6) 63); N.lor 128 (N.land v 63)]
   else None.
@@ -90,6 +92,8 @@ Definition checkutf8 (s : bytes) : option nat :=
   else if (N.land c 240 =? 224) && (Nat.ltb 2 n) then
     let i := firstn 3 s in
     if negb (lex_lt i [237;160;128]) && negb (lex_gt i [237;191;191]) then None
+    (* (input >= 0xEFB790) && (input <= 0xEFB7AF): noncharacters %xFDD0-FDEF, since /repo commit d2cc93f *)
+    else if negb (lex_lt i [239;183;144]) && negb (lex_gt i [239;183;175]) then None
     else if lex_lt i [224;160;128] || lex_gt i [239;191;189] ||      (* EF BF BD since /repo commit 2a3b08d *)
             negb (and_eq i [240;192;192] [224;128;128]) then None
     else Some 3%nat
@@ -97,6 +101,8 @@ Definition checkutf8 (s : bytes) : option nat :=
     let i := firstn 4 s in
     if lex_lt i [240;144;128;128] || lex_gt i [244;143;191;191] ||
        negb (and_eq i [248;192;192;192] [240;128;128;128]) then None
+    (* (input & 0x000FFFFE) == 0x000FBFBE: noncharacters %xnFFFE-nFFFF of planes 1-16, since /repo commit d2cc93f *)
+    else if and_eq i [0;15;255;254] [0;15;191;190] then None
     else Some 4%nat
   else None.
 
@@ -118,11 +124,10 @@ Definition is_yang_char (v : N) : bool :=
   negb ((64976 <=? v) && (v <=? 65007)) &&
   negb (N.land v 65534 =? 65534).
 
-(* the characters ly_getutf8 accepts when it is given their RFC 3629 encoding *)
-Definition getutf8_accepts_char (v : N) : bool :=
-  is_scalar v &&
-  negb ((v <? 32) && negb (v =? 9) && negb (v =? 10) && negb (v =? 13)) &&
-  negb ((v =? 65534) || (v =? 65535)).
+(* the characters ly_getutf8 accepts when it is given their RFC 3629 encoding: since /repo commit d2cc93f
+   (noncharacters refused) exactly the yang-char (Utf8P.getutf8_encode_iff); the name is kept for the lemmas
+   that were stated with it *)
+Definition getutf8_accepts_char (v : N) : bool := is_yang_char v.
 
 (* whole-string check by repeated getutf8: what the XML/JSON lexers enforce on raw text *)
 Fixpoint all_getutf8_f (fuel : nat) (s : bytes) : bool :=
